@@ -373,8 +373,11 @@ def adapter(name):
         "BUFE_LIFO": lambda: A_BufferEdge("LIFO", "callable"),
         "BUFE_FIFO_GEN": lambda: A_BufferEdge("FIFO", "gen"),
         "BUFE_FIFO_CONST": lambda: A_BufferEdge("FIFO", "const"),
-        "FLEET": lambda: A_Fleet(),
-        "FLEETE": lambda: A_FleetEdge(),
+        # fleet timing is C14's subject: the store-level families use a concrete waiting delay / transit delay (zero transit too)
+        "FLEET": lambda: A_Fleet(delay=1, transit=0.5),
+        "FLEET0": lambda: A_Fleet(delay=1, transit=0),
+        "FLEET_SYM": lambda: A_Fleet(),
+        "FLEETE": lambda: A_FleetEdge(delay=1, transit=0.5),
         "SBELT_PRIO": lambda: A_BeltPrio(2),
         "SBELT_PRIO3": lambda: A_BeltPrio(3),
         "SBELT_ACC": lambda: A_Belt("slotted", True, 2),
